@@ -125,20 +125,24 @@ theorem queueW_tag (kind : K → Kind) (q : List (Commit K V)) (k : K) (i : Nat)
 
 theorem cleanOp_other (id : Nat) (ov : K → Option (Nat × Option V)) (op : Op K V) (k : K)
     (h : ∀ v, ov k ≠ some (id, v)) : cleanOp id ov op k = ov k := by
-  have aux : ∀ k', (match ov k' with
-      | some (i, _) => if i = id then upd ov k' none else ov
-      | none => ov) k = ov k := by
+  have aux : ∀ k', (fun x => if x = k' then
+        (match ov k' with
+         | some (i, v) => if i = id then none else some (i, v)
+         | none => none)
+      else ov x) k = ov k := by
     intro k'
-    cases hk' : ov k' with
-    | none => rfl
-    | some x =>
-      obtain ⟨i, v⟩ := x
-      by_cases hi : i = id
-      · simp only [hi, if_true]
-        by_cases hkk : k = k'
-        · subst hkk; subst hi; exact absurd hk' (h v)
-        · exact upd_other _ _ _ _ hkk
-      · simp [hi]
+    simp only
+    by_cases hkk : k = k'
+    · subst hkk
+      simp only [if_true]
+      cases hk : ov k with
+      | none => rfl
+      | some x =>
+        obtain ⟨i, v⟩ := x
+        by_cases hi : i = id
+        · subst hi; exact absurd hk (h v)
+        · simp [hi]
+    · simp [hkk]
   cases op with
   | set k' v => exact aux k'
   | deref k' => exact aux k'
@@ -157,22 +161,21 @@ theorem cleanOp_hit (id : Nat) (ov : K → Option (Nat × Option V)) (op : Op K 
     (v : Option V) (h : ov k = some (id, v)) :
     (cleanKey op = some k → cleanOp id ov op k = none) ∧
     (cleanKey op ≠ some k → cleanOp id ov op k = ov k) := by
-  have aux : ∀ k', (k' = k → (match ov k' with
-      | some (i, _) => if i = id then upd ov k' none else ov
-      | none => ov) k = none) ∧ (k' ≠ k → (match ov k' with
-      | some (i, _) => if i = id then upd ov k' none else ov
-      | none => ov) k = ov k) := by
+  have aux : ∀ k', (k' = k → (fun x => if x = k' then
+        (match ov k' with
+         | some (i, v) => if i = id then none else some (i, v)
+         | none => none)
+      else ov x) k = none) ∧ (k' ≠ k → (fun x => if x = k' then
+        (match ov k' with
+         | some (i, v) => if i = id then none else some (i, v)
+         | none => none)
+      else ov x) k = ov k) := by
     intro k'
     constructor
     · intro e; subst e; simp [h]
     · intro ne
-      cases hk' : ov k' with
-      | none => rfl
-      | some x =>
-        obtain ⟨i, w⟩ := x
-        by_cases hi : i = id
-        · simp only [hi, if_true]; exact upd_other _ _ _ _ (fun e => ne e.symm)
-        · simp [hi]
+      have : ¬ k = k' := fun e => ne e.symm
+      simp [this]
   cases op with
   | set k' w =>
     constructor
